@@ -52,7 +52,7 @@ Record node := Node {
   n_selc : bool;            (* Pile/Columns: the cached _selectable *)
   n_pref : pcol;            (* Pile.pref_col / Columns.pref_col / ListBox.pref_col *)
   n_dv : Z;                 (* Columns.dividechars / GridFlow.h_sep *)
-  n_cw : Z;                 (* GridFlow.cell_width *)
+  n_cw : Z;                 (* GridFlow.cell_width; ListBox: <> 0 when the body is a SimpleListWalker *)
   n_vs : Z;                 (* GridFlow.v_sep *)
   n_a : Z;                  (* Frame.body / Overlay.top_w *)
   n_b : oz;                 (* Frame.header / Overlay.bottom_w *)
@@ -864,13 +864,21 @@ Fixpoint sfp (positions : list Z) (id : Z) : M unit :=
   end.
 
 (* ---------- contents edits (C16 operations on the focus list) ---------- *)
+(* a ListBox over a plain list has a SimpleListWalker (n_cw <> 0): a MonitoredList whose focus index is NOT moved with
+   the items; SimpleListWalker._modified only pulls it back inside: if focus >= len: focus = max(0, len - 1) *)
+Definition is_simple_walker (n : node) : bool := match nk n with KLBox => negb (n_cw n =? 0) | _ => false end.
+Definition simple_walker_state (old new : MonitoredList.state) : MonitoredList.state :=
+  let its := MonitoredList.items new in
+  let f0 := MonitoredList.focus_raw old in
+  MonitoredList.St its (if zlen its <=? f0 then Z.max 0 (zlen its - 1) else f0).
+
 Definition edit (f : nat) (id : Z) (e : MonitoredList.op) : M unit :=
   n <- rd id ;;
   let so := MonitoredList.step (n_c n) e in
   match MonitoredList.o_err (snd so) with
   | Some er => raise (of_errkind er)
   | None =>
-      w_contents id (fst so) ;;;
+      w_contents id (if is_simple_walker n then simple_walker_state (n_c n) (fst so) else fst so) ;;;
       match nk n with
       | KPile | KCols => h <- get_heap ;; w_selc id (existsb (sel f h) (MonitoredList.items (fst so)))   (* _contents_modified *)
       | _ => ret tt
@@ -928,7 +936,7 @@ Definition construct (fuel : nat) (h : heap) (s : spec) : node :=
       | KGrid => Node KGrid wd box ht wt false [] (init_grid fuel h ch f) false PNone dv cw vs 0 None None 100 PendNone false
       | _ => Node KLBox wd box ht wt false []
                   (match f, ch with Some j, _ :: _ => st_apply (MonitoredList.St ch 0) (MonitoredList.SetFocus j) | _, _ => MonitoredList.St ch 0 end)
-                  false PLeft 0 0 0 0 None None 100 PendFirst false
+                  false PLeft 0 cw 0 0 None None 100 PendFirst false
       end
   | SFrame wd box ht wt body hd ft part =>
       Node KFrame wd box ht wt false [] (MonitoredList.St [] 0) false PNone 0 0 0 body hd ft part PendNone false
